@@ -156,7 +156,7 @@ A_C03 == [][cfg.alg = "adv" \/ (Tr_C03_precedence(S, S') /\ Tr_C03_exact(S, S'))
 A_C04 == [][Tr_C04_once(S, S')]_vars
 A_C06 == [][Tr_C06_runtime(S, S')]_vars
 A_C07 == [][Tr_C07_deposit(S, S') /\ Tr_C07_release(S, S')]_vars
-A_C08 == [][Tr_C08_begin(S, S') /\ Tr_C08_status(S, S')]_vars
+A_C08 == [][Tr_C08_begin(S, S') /\ Tr_C08_status(S, S') /\ Tr_C08_finish(S, S')]_vars
 A_C08b == [][Tr_C08_ingest(S, S')]_vars
 A_C08c == [][Tr_C08_ontime(S, S')]_vars
 A_C09 == [][Tr_C09_onlyReserved(S, S') /\ Tr_C09_exclusive(S, S') /\ Tr_C09_size(S, S') /\ Tr_C09_released(S, S')]_vars
